@@ -612,7 +612,12 @@ class QuorumSensing:
         abstain_votes: list[Vote]
     ) -> QuorumResult:
         """Fixed threshold count (e.g., need exactly N permits)."""
-        threshold = int(self.custom_threshold or len(self.colony) // 2 + 1)
+        threshold = self.custom_threshold or len(self.colony) // 2 + 1
+        if 0 < threshold < 1:
+            # A fractional threshold is a share of the colony, never "zero permits"
+            threshold = max(1, math.ceil(threshold * len(self.colony)))
+        # A fractional count is rounded up: 2.5 permits needed means 3
+        threshold = math.ceil(threshold)
 
         reached = len(permit_votes) >= threshold
         decision = VoteType.PERMIT if reached else VoteType.BLOCK
